@@ -6,7 +6,9 @@
 (* any descriptor of the file, and by the death of the process.  Process    *)
 (* side, as daemon.AcquireLock / Lock.Release are written:                  *)
 (*   Open (locking.NewLocker) -> TryLock (Locker.Lock(false): F_SETLK; on   *)
-(*   failure Locker.Close) -> [holding: Enter .. Exit journal lines] ->     *)
+(*   failure Locker.Close = RefusedAttempt, after which the process lives   *)
+(*   on and may try again) -> [holding: Enter .. Exit journal lines; a      *)
+(*   garbage collection GC may run meanwhile] ->                            *)
 (*   Unlock (F_UNLCK) -> Close.                                             *)
 (* The supervisor announces a kill in the journal (Announce) before the     *)
 (* process dies (Kill), and confirms it afterwards (Reap).                  *)
@@ -16,9 +18,12 @@
 (***************************************************************************)
 EXTENDS DaemonLockProps
 
-CONSTANTS Procs, None, MaxRounds, MaxKills
-VARIABLES pc, owner, rounds, kills, announced, j, viol
-vars == <<pc, owner, rounds, kills, announced, j, viol>>
+CONSTANTS Procs, None, MaxRounds, MaxKills,
+          ClosesOnRefusal      \* TRUE: AcquireLock closes the locker when the attempt is refused (the code)
+VARIABLES pc, owner, rounds, kills, announced, j, viol,
+          stale,               \* per process: descriptors of the lock file it still has open but no longer references
+          gcs                  \* per process: garbage collections run while holding (bounded)
+vars == <<pc, owner, rounds, kills, announced, j, viol, stale, gcs>>
 
 Alive(p) == pc[p] \notin {"dead", "reaped"}
 Log(who, what) == /\ viol' = (viol \/ ~C28_Mutex(j, who, what) \/ ~JournalWF(j, who, what))
@@ -26,43 +31,61 @@ Log(who, what) == /\ viol' = (viol \/ ~C28_Mutex(j, who, what) \/ ~JournalWF(j, 
 
 Init == /\ pc = [p \in Procs |-> "idle"] /\ owner = None /\ rounds = [p \in Procs |-> 0]
         /\ kills = 0 /\ announced = {} /\ j = J0 /\ viol = FALSE
+        /\ stale = [p \in Procs |-> 0] /\ gcs = [p \in Procs |-> 0]
 
 Open(p) == /\ pc[p] = "idle" /\ rounds[p] < MaxRounds
            /\ pc' = [pc EXCEPT ![p] = "opened"] /\ rounds' = [rounds EXCEPT ![p] = @ + 1]
-           /\ UNCHANGED <<owner, kills, announced, j, viol>>
+           /\ UNCHANGED <<owner, kills, announced, j, viol, stale, gcs>>
 \* F_SETLK, non-blocking
 TryLock(p) == /\ pc[p] = "opened"
               /\ IF owner = None \/ owner = p
                  THEN owner' = p /\ pc' = [pc EXCEPT ![p] = "locked"]
                  ELSE owner' = owner /\ pc' = [pc EXCEPT ![p] = "failed"]
-              /\ UNCHANGED <<rounds, kills, announced, j, viol>>
-\* locker.Close() after a failed attempt: closing a descriptor drops the process's own lock only
-CloseFailed(p) == /\ pc[p] = "failed" /\ pc' = [pc EXCEPT ![p] = "idle"]
-                  /\ owner' = (IF owner = p THEN None ELSE owner)
-                  /\ UNCHANGED <<rounds, kills, announced, j, viol>>
+              /\ UNCHANGED <<rounds, kills, announced, j, viol, stale, gcs>>
+\* The refused attempt: AcquireLock returns the error to a caller that lives on and may try again later.
+\* The code closes the locker first (closing a descriptor drops the process's own lock only - it has
+\* none at this point).  ClosesOnRefusal = FALSE is the variant that forgets: the descriptor stays open
+\* behind an *os.File nobody references any more (DaemonLock_MC_leak.cfg, expected to FAIL).
+RefusedAttempt(p) == /\ pc[p] = "failed" /\ pc' = [pc EXCEPT ![p] = "idle"]
+                     /\ IF ClosesOnRefusal
+                        THEN owner' = (IF owner = p THEN None ELSE owner) /\ stale' = stale
+                        ELSE owner' = owner /\ stale' = [stale EXCEPT ![p] = @ + 1]
+                     /\ Log(p, "refused")
+                     /\ UNCHANGED <<rounds, kills, announced, gcs>>
+\* A garbage collection in a process that holds the lock: finalizers close every unreferenced
+\* descriptor, and on POSIX closing ANY descriptor of the file drops ALL of the process's fcntl locks
+\* on it - silently: the process goes on believing it holds the lock.  With no stale descriptor GC is a
+\* no-op.
+GC(p) == /\ pc[p] \in {"locked", "in", "out"} /\ gcs[p] < 1
+         /\ gcs' = [gcs EXCEPT ![p] = @ + 1]
+         /\ stale' = [stale EXCEPT ![p] = 0]
+         /\ owner' = (IF stale[p] > 0 /\ owner = p THEN None ELSE owner)
+         /\ Log(p, "gc")
+         /\ UNCHANGED <<pc, rounds, kills, announced>>
 Enter(p) == /\ pc[p] = "locked" /\ pc' = [pc EXCEPT ![p] = "in"] /\ Log(p, "enter")
-            /\ UNCHANGED <<owner, rounds, kills, announced>>
+            /\ UNCHANGED <<owner, rounds, kills, announced, stale, gcs>>
 Exit(p) == /\ pc[p] = "in" /\ pc' = [pc EXCEPT ![p] = "out"] /\ Log(p, "exit")
-           /\ UNCHANGED <<owner, rounds, kills, announced>>
+           /\ UNCHANGED <<owner, rounds, kills, announced, stale, gcs>>
 \* Lock.Release: Unlock (F_UNLCK) then Close
 Unlock(p) == /\ pc[p] = "out" /\ pc' = [pc EXCEPT ![p] = "unlocked"]
              /\ owner' = (IF owner = p THEN None ELSE owner)
-             /\ UNCHANGED <<rounds, kills, announced, j, viol>>
+             /\ UNCHANGED <<rounds, kills, announced, j, viol, stale, gcs>>
 Close(p) == /\ pc[p] = "unlocked" /\ pc' = [pc EXCEPT ![p] = "idle"]
             /\ owner' = (IF owner = p THEN None ELSE owner)
-            /\ UNCHANGED <<rounds, kills, announced, j, viol>>
+            /\ UNCHANGED <<rounds, kills, announced, j, viol, stale, gcs>>
 
 Announce(p) == /\ Alive(p) /\ p \notin announced /\ kills < MaxKills
                /\ announced' = announced \cup {p} /\ kills' = kills + 1 /\ Log(p, "killing")
-               /\ UNCHANGED <<pc, owner, rounds>>
+               /\ UNCHANGED <<pc, owner, rounds, stale, gcs>>
 \* SIGKILL arrives: every descriptor is closed, the kernel drops the lock
 Kill(p) == /\ Alive(p) /\ p \in announced
            /\ pc' = [pc EXCEPT ![p] = "dead"] /\ owner' = (IF owner = p THEN None ELSE owner)
-           /\ UNCHANGED <<rounds, kills, announced, j, viol>>
+           /\ stale' = [stale EXCEPT ![p] = 0]
+           /\ UNCHANGED <<rounds, kills, announced, j, viol, gcs>>
 Reap(p) == /\ pc[p] = "dead" /\ pc' = [pc EXCEPT ![p] = "reaped"] /\ Log(p, "killed")
-           /\ UNCHANGED <<owner, rounds, kills, announced>>
+           /\ UNCHANGED <<owner, rounds, kills, announced, stale, gcs>>
 
-ProcStep(p) == Open(p) \/ TryLock(p) \/ CloseFailed(p) \/ Enter(p) \/ Exit(p) \/ Unlock(p) \/ Close(p)
+ProcStep(p) == Open(p) \/ TryLock(p) \/ RefusedAttempt(p) \/ GC(p) \/ Enter(p) \/ Exit(p) \/ Unlock(p) \/ Close(p)
 Next == \E p \in Procs : ProcStep(p) \/ Announce(p) \/ Kill(p) \/ Reap(p)
 Spec == Init /\ [][Next]_vars
 FairSpec == Spec /\ \A p \in Procs : WF_vars(ProcStep(p)) /\ WF_vars(Kill(p)) /\ WF_vars(Reap(p))
@@ -70,6 +93,10 @@ FairSpec == Spec /\ \A p \in Procs : WF_vars(ProcStep(p)) /\ WF_vars(Kill(p)) /\
 Holding == {p \in Procs : pc[p] \in {"locked", "in", "out"}}
 Inv_Mutex == Cardinality(Holding) <= 1
 Inv_JournalSound == ~viol
+\* whoever believes it holds the lock does hold it in the kernel (nothing dropped it behind its back)
+Inv_HolderOwns == \A p \in Holding : owner = p
+\* the design: no descriptor outlives a refused attempt, so a collection has nothing to close
+Inv_NoStaleDescriptor == \A p \in Procs : stale[p] = 0
 \* the kernel lock is never left with an owner that no longer holds it (released, closed, dead)
 Inv_NoOrphan == owner # None => owner \in Holding
 \* what an observer of the journal believes is consistent with who is really inside
